@@ -94,9 +94,13 @@ package fsnotify
 //@ pred Shrinks(w *kqueue) := forall(k, int, has(open, k) ==> has(old(open), k)) && forall(k, int, has(w.watches.wd, k) ==> has(old(w.watches.wd), k)) &&
 //@        forall(q, string, has(w.watches.path, q) ==> has(old(w.watches.path), q)) && forall(q, string, has(w.watches.byUser, q) ==> has(old(w.watches.byUser), q))
 
+// lastRemoved: the name the most recent completed remove() was asked for
+//@ ghost lastRemoved string
 //@ func (w *kqueue) remove(name string, unwatchFiles bool) (err error)
 //@   requires KWf(w) && nolocks()
 //@   ensures KWf(w)
+//@   effect lastRemoved = name
+//@   ensures lastRemoved == name
 //@   let p = filepath.Clean(name)
 //@   let fd = old(w.watches.path)[p]
 //@   let found = has(old(w.watches.wd), fd)
@@ -183,6 +187,10 @@ package fsnotify
 //@   consumes reader
 //@   requires KWf(w) && nolocks() && token(reader) && !closed(w.Events) && !closed(w.Errors)
 //@   ensures closed(w.Events) && closed(w.Errors)                                                                              [C17] "the reader closes both channels when it exits"
+//@   local event Event
+//@   local path watch
+//@   atcall shared.sendEvent: ok && path.linkName == "" && arg_e.Op & (Rename | Remove) != 0 ==> lastRemoved == path.name     [C17] "a Rename or Remove notification ends the watch: before it is reported, the removal of that watch has been carried out"
+//@   atcall kqueue.dirChange: ok && path.linkName == "" && event.Op & (Rename | Remove) != 0 ==> lastRemoved == path.name      [C17] "also when the notification is a directory change combined with a rename"
 //@   atcall kqueue.remove: arg_name == filepath.Clean(arg_name) ==> arg_name == path.name                                     [C17] "when a watched path is deleted or renamed, the removal is asked for under the name the tables are keyed by (so that its descriptor is closed)"
 //@   loop 1 "for"
 //@     invariant KWf(w) && nolocks() && token(reader) && !closed(w.Events) && !closed(w.Errors)
